@@ -2,7 +2,9 @@ from pyvc.cbase import Registry
 
 
 def build_registry():
-    from . import expect
+    from . import externs, expect, spawnbase
     reg = Registry()
+    externs.register(reg)
+    spawnbase.register(reg)
     expect.register(reg)
     return reg
